@@ -6,7 +6,6 @@ Import ListNotations.
 Open Scope R_scope.
 Local Notation exp := Rtrigo_def.exp.
 
-Definition ov (o : option R) : R := match o with Some x => x | None => 0 end.
 Lemma b2t_RN b : b2t RN b = b2r b.
 Proof. destruct b; reflexivity. Qed.
 Lemma ov_hd_error (l : list R) : ov (hd_error l) = hd 0 l.
@@ -190,9 +189,6 @@ Qed.
 Definition net (o : option R * option R) : R := ov (fst o) - ov (snd o).
 Fixpoint sum_net (outs : list (option R * option R)) : R :=
   match outs with [] => 0 | o :: tl => net o + sum_net tl end.
-(* single-sample inputs *)
-Definition inps1 (hs : list ((bool * bool) * signal RN)) : list (list (bool * bool) * signal RN) :=
-  map (fun x => ([fst x], snd x)) hs.
 
 (* observed presynaptic train when the reducers observe connection.synspike (newest first) *)
 Fixpoint dlist (j : nat) (r : list bool) : list bool :=
@@ -395,7 +391,6 @@ Qed.
 End Reads.
 
 (* ------------------------------------------------------------------ routing and reductions *)
-Definition sgn (x : R) : R := if nonneg RN x then 1 else -1.
 Lemma sgn_abs x : sgn x * Rabs x = x.
 Proof.
   unfold sgn, nonneg, geb. rn_simpl. rcases.
@@ -494,7 +489,7 @@ Proof.
   change (hd (zero RN) (tvals (mo c) (d_post c) (amp_post RN c) (rev (map snd h))))
     with (V (mo c) (d_post c) (amp_post RN c) (rev (map snd h)));
   unfold mo, d_pre, d_post, h; rewrite pre_trace_now, post_trace_now, pre_spike_now, post_spike_now;
-  unfold amp_pre, amp_post, is_stable; rewrite E, !b2t_RN; rn_simpl; f_equal. Show. all: ring.
+  unfold amp_pre, amp_post, is_stable; rewrite E; rn_simpl; rewrite (b2t_RN (nth (length h0) (Ptr (h0 ++ [pq])) false)); rewrite (b2t_RN (nth (length h0) (Qtr (h0 ++ [pq])) false)); f_equal; ring.
 Qed.
 End Steps.
 
@@ -540,7 +535,6 @@ Proof.
   unfold net in H. cbn [fst snd ov] in H. rn_simpl. lra.
 Qed.
 
-Definition nosig (h : list (bool * bool)) : list ((bool * bool) * signal RN) := map (fun pq => (pq, SigNone RN)) h.
 
 Section Totals.
 Variable c : config RN.
@@ -595,3 +589,747 @@ Proof.
   rewrite !sgn_abs_mul. lra.
 Qed.
 End Totals.
+
+(* ------------------------------------------------------------------ delays on the step grid: record sizes *)
+
+Lemma recsz_grid dt n : 0 < dt -> recsz RN (INR n * dt) dt = (Z.of_nat n + 1)%Z.
+Proof.
+  intros H. unfold recsz, recordsz_expr. rn_simpl.
+  replace (INR n * dt / dt) with (INR n) by (field; lra).
+  rewrite INR_IZR_INZ, Flocq.Core.Raux.Zceil_IZR. cbn [Z.b2z]. lia.
+Qed.
+Lemma recsz_grid_S dt n : 0 < dt -> recsz RN (INR n * dt + dt) dt = (Z.of_nat n + 2)%Z.
+Proof.
+  intros H. replace (INR n * dt + dt) with (INR (S n) * dt) by (rewrite S_INR; ring).
+  rewrite recsz_grid by exact H. lia.
+Qed.
+Lemma recsz_zero dt : 0 < dt -> recsz RN 0 dt = 1%Z.
+Proof. intros H. replace 0 with (INR 0 * dt) by (cbn; ring). rewrite recsz_grid by exact H. reflexivity. Qed.
+Lemma recsz_one dt : 0 < dt -> recsz RN dt dt = 2%Z.
+Proof. intros H. replace dt with (INR 1 * dt) at 1 by (cbn; ring). rewrite recsz_grid by exact H. reflexivity. Qed.
+Lemma recsz_two dt : 0 < dt -> recsz RN (IZR 2 * dt) dt = 3%Z.
+Proof. intros H. replace (IZR 2) with (INR 2) by (cbn; ring). rewrite recsz_grid by exact H. reflexivity. Qed.
+
+Section Grid.
+Variable c : config RN.
+Variable k : nat.
+Hypothesis G : grid_ok c k.
+
+Lemma grid_syn : delay_truthy RN c = true -> (Z.of_nat k < sz_syn RN c)%Z.
+Proof.
+  destruct G as [Hdt [E | (kmax & E & Hk)]]; unfold delay_truthy, sz_syn, delayedby0; rewrite E; [discriminate|].
+  intros _. rewrite recsz_grid by exact Hdt. lia.
+Qed.
+Lemma grid_pre : del_fwd RN c = true -> (Z.of_nat k < sz_tr_pre RN c)%Z /\ (Z.of_nat k < sz_spike_pre RN c)%Z.
+Proof.
+  intros Ef. destruct (del_fwd_true c Ef) as [Er Et]. unfold sz_tr_pre, sz_spike_pre. rewrite Er.
+  destruct G as [Hdt [E | (kmax & E & Hk)]]; unfold delay_truthy, delayedby0 in *; rewrite E in *; [discriminate|].
+  rewrite recsz_grid by exact Hdt. lia.
+Qed.
+Lemma grid_pre_slow :
+  (del_fwd RN c = true -> (Z.of_nat (k + 1) < sz_tr_pre_slow RN c)%Z) /\ (1 < sz_tr_pre_slow RN c)%Z
+  /\ (1 < sz_tr_post_slow RN c)%Z.
+Proof.
+  destruct G as [Hdt HG]. unfold sz_tr_post_slow, two_dt. rn_simpl. rewrite recsz_two by exact Hdt.
+  split; [|split; [|lia]].
+  - intros Ef. destruct (del_fwd_true c Ef) as [Er Et]. unfold sz_tr_pre_slow. rewrite Er.
+    destruct HG as [E | (kmax & E & Hk)]; unfold delay_truthy, delayedby0 in *; rewrite E in *; [discriminate|].
+    rn_simpl. rewrite recsz_grid_S by exact Hdt. lia.
+  - unfold sz_tr_pre_slow. destruct (del_reg RN c) eqn:Er.
+    + destruct HG as [E | (kmax & E & Hk)]; unfold del_reg, has_delay, delayedby0 in *; rewrite E in *.
+      * rewrite !andb_false_r in Er. discriminate.
+      * rn_simpl. rewrite recsz_grid_S by exact Hdt. lia.
+    + unfold two_dt. rn_simpl. rewrite recsz_two by exact Hdt. lia.
+Qed.
+(* the delay the reducers see: k steps on a connection with delays, none otherwise *)
+Lemma keff_grid : keff c k = if has_delay RN c then k else O.
+Proof.
+  unfold keff, delay_truthy, has_delay. destruct G as [Hdt [E | (kmax & E & Hk)]]; rewrite E; [reflexivity|].
+  rn_simpl. destruct (Reqb'_spec (INR kmax * c_dt RN c) 0) as [H|H]; cbn [negb]; [|reflexivity].
+  assert (Hz : INR kmax = INR 0) by (cbn; nra). apply INR_eq in Hz. subst kmax. lia.
+Qed.
+End Grid.
+
+(* ================================================================== STDP / StableSTDP *)
+
+Theorem stdp_pairsum c k h :
+  c_trainer RN c = STDP \/ c_trainer RN c = StableSTDP -> grid_ok c k ->
+  weight_change c k (nosig h)
+  = c_lr_post RN c * pairsum (c_mode RN c) (c_dt RN c) (c_tc_pre RN c) (fun _ => 1) (post_train h) (pre_train c k h)
+    + c_lr_pre RN c * pairsum (c_mode RN c) (c_dt RN c) (c_tc_post RN c) (fun _ => 1) (pre_train c k h) (post_train h).
+Proof.
+  intros Ht G. unfold weight_change. rewrite weight_change_sum, run_single.
+  rewrite (stdp_steps c k (grid_syn c k G) (grid_pre c k G) h Ht), (contrib_pairsum c k h).
+  unfold Ptr, Qtr, pre_train, post_train. rewrite (keff_grid c k G). reflexivity.
+Qed.
+
+(* cumulative mode, spelled out: every post spike at step tp pairs with EVERY presynaptic spike that has arrived
+   (arrival step tq <= tp), weight eta_post exp(-(tp - tq) dt / tau_pre); mirror image for every arriving presynaptic spike *)
+Theorem stdp_cumulative_pairsum c k h :
+  c_trainer RN c = STDP \/ c_trainer RN c = StableSTDP -> c_mode RN c = Cumulative -> grid_ok c k ->
+  weight_change c k (nosig h)
+  = c_lr_post RN c *
+      sum_over (spike_times (post_train h)) (fun tp =>
+        sum_over (filter (fun tq => tq <=? tp) (spike_times (pre_train c k h))) (fun tq =>
+          Rtrigo_def.exp (- ((INR tp - INR tq) * c_dt RN c) / c_tc_pre RN c)))
+    + c_lr_pre RN c *
+      sum_over (spike_times (pre_train c k h)) (fun tq =>
+        sum_over (filter (fun tp => tp <=? tq) (spike_times (post_train h))) (fun tp =>
+          Rtrigo_def.exp (- ((INR tq - INR tp) * c_dt RN c) / c_tc_post RN c))).
+Proof.
+  intros Ht Hm G. rewrite (stdp_pairsum c k h Ht G), Hm. unfold pairsum. cbn [partner_sum]. unfold partners_le, pairw.
+  f_equal; f_equal; apply sum_over_ext; intros; lra.
+Qed.
+(* nearest mode: only the most recent partner *)
+Theorem stdp_nearest_pairsum c k h :
+  c_trainer RN c = STDP \/ c_trainer RN c = StableSTDP -> c_mode RN c = Nearest -> grid_ok c k ->
+  weight_change c k (nosig h)
+  = c_lr_post RN c *
+      sum_over (spike_times (post_train h)) (fun tp =>
+        match latest_upto (pre_train c k h) (S tp) with
+        | Some tq => Rtrigo_def.exp (- ((INR tp - INR tq) * c_dt RN c) / c_tc_pre RN c)
+        | None => 0
+        end)
+    + c_lr_pre RN c *
+      sum_over (spike_times (pre_train c k h)) (fun tq =>
+        match latest_upto (post_train h) (S tq) with
+        | Some tp => Rtrigo_def.exp (- ((INR tq - INR tp) * c_dt RN c) / c_tc_post RN c)
+        | None => 0
+        end).
+Proof.
+  intros Ht Hm G. rewrite (stdp_pairsum c k h Ht G), Hm. unfold pairsum. cbn [partner_sum]. unfold pairw.
+  f_equal; f_equal; apply sum_over_ext; intros; lra.
+Qed.
+
+(* the delayed and the delay-frozen trainer modes compute the same weight change (delays on the step grid) *)
+Theorem stdp_delayed_modes_agree c k h :
+  c_trainer RN c = STDP \/ c_trainer RN c = StableSTDP -> grid_ok c k ->
+  weight_change (set_delayed c true) k (nosig h) = weight_change (set_delayed c false) k (nosig h).
+Proof.
+  intros Ht G. rewrite !stdp_pairsum by (try exact Ht; exact G). reflexivity.
+Qed.
+
+(* the spike times of the delayed train: the original spike times plus the delay (those that still fit) *)
+Lemma spike_times_firstn n l : spike_times (firstn n l) = filter (fun s => s <? n) (spike_times l).
+Proof.
+  revert n. induction l as [|b l IH] using rev_ind; intros n; [rewrite firstn_nil; reflexivity|].
+  destruct (Nat.le_gt_cases n (length l)) as [H|H].
+  - rewrite firstn_app. replace (n - length l)%nat with O by lia. cbn [firstn]. rewrite app_nil_r, IH.
+    rewrite spike_times_snoc, filter_app. destruct b; cbn [filter]; [|rewrite app_nil_r; reflexivity].
+    destruct (Nat.ltb_spec (length l) n); [lia|]. rewrite app_nil_r. reflexivity.
+  - rewrite firstn_all2 by (rewrite app_length; cbn; lia).
+    symmetry. rewrite (filter_ext_in _ (fun _ => true)).
+    + induction (spike_times (l ++ [b])) as [|x r IHr]; cbn; congruence.
+    + intros s Hs. apply spike_times_lt in Hs. rewrite app_length in Hs. cbn in Hs. apply Nat.ltb_lt. lia.
+Qed.
+Theorem spike_times_shift j l :
+  spike_times (shift j l) = map (fun s => (s + j)%nat) (filter (fun s => s + j <? length l) (spike_times l)).
+Proof.
+  unfold shift. destruct (Nat.le_gt_cases j (length l)) as [H|H].
+  - rewrite Nat.min_l by exact H. rewrite spike_times_repeat_false, spike_times_firstn. f_equal.
+    apply filter_ext_in. intros s Hs. apply spike_times_lt in Hs.
+    destruct (Nat.ltb_spec s (length l - j)), (Nat.ltb_spec (s + j) (length l)); try reflexivity; lia.
+  - rewrite Nat.min_r by lia. replace (length l - j)%nat with O by lia. cbn [firstn]. rewrite app_nil_r.
+    assert (E : spike_times (repeat false (length l)) = []).
+    { pose proof (spike_times_repeat_false (length l) []) as E. rewrite app_nil_r in E. exact E. }
+    rewrite E. symmetry. rewrite (filter_ext_in _ (fun _ => false)).
+    + induction (spike_times l) as [|x r IHr]; cbn; congruence.
+    + intros s Hs. apply Nat.ltb_ge. lia.
+Qed.
+
+(* ================================================================== MSTDP (scalar signal) *)
+
+Lemma sgn_mul_abs x s g : sgn (x * s) * (Rabs x * Rabs (s * g)) = x * (s * Rabs g).
+Proof.
+  rewrite Rabs_mult. transitivity ((sgn (x * s) * Rabs (x * s)) * Rabs g); [rewrite (Rabs_mult x s); ring|].
+  rewrite sgn_abs. ring.
+Qed.
+
+Lemma withsig_snoc hx x : withsig (hx ++ [x]) = withsig hx ++ [(fst x, SigScalar RN (fst (snd x)) (snd (snd x)))].
+Proof. unfold withsig. rewrite map_app. reflexivity. Qed.
+Lemma withsig_fst hx : map fst (withsig hx) = map fst hx.
+Proof. unfold withsig. rewrite map_map. reflexivity. Qed.
+
+Section MSTDP.
+Variable c : config RN.
+Variable k : nat.
+Hypothesis G : grid_ok c k.
+Hypothesis Ht : c_trainer RN c = MSTDP.
+
+Lemma mstdp_steps hx :
+  sum_net (outs_from c k [] (withsig hx))
+  = sum_steps (length hx) (fun t => sigw hx t * contrib c k (map fst hx) t).
+Proof.
+  induction hx as [|x hx IH] using rev_ind; [reflexivity|].
+  rewrite withsig_snoc, outs_from_snoc0, sum_net_app, IH. cbn [sum_net snd].
+  rewrite app_length. cbn [length]. rewrite Nat.add_1_r. cbn [sum_steps].
+  rewrite (map_app fst), withsig_fst. cbn [map fst].
+  rewrite (sum_steps_ext _ (fun t => sigw (hx ++ [x]) t * contrib c k (map fst (hx ++ [x])) t)
+                           (fun t => sigw hx t * contrib c k (map fst hx) t)).
+  2:{ intros t Hlt. rewrite map_app. cbn [map]. rewrite contrib_prefix by (rewrite map_length; exact Hlt).
+      unfold sigw. rewrite map_app, app_nth1 by (rewrite map_length; exact Hlt). reflexivity. }
+  rewrite net_forward_scalar.
+  pose proof (partials_stdp c k (grid_syn c k G) (grid_pre c k G) (map fst hx) (fst x) (or_intror (or_introl Ht))) as Hp.
+  cbv zeta in Hp. rewrite Hp. cbn [fst snd].
+  assert (Ew : sigw (hx ++ [x]) (length hx) = fst (snd x) * Rabs (snd (snd x))).
+  { unfold sigw. rewrite map_app. cbn [map]. replace (length hx) with (length (map snd hx)) by apply map_length.
+    rewrite nth_middle. reflexivity. }
+  rewrite Ew. unfold contrib. rewrite !map_app. cbn [map]. rewrite !map_length.
+  set (A := partner_sum _ _ _ _ _). set (B := partner_sum _ _ _ _ _).
+  set (qa := b2r _). set (pa := b2r _). f_equal.
+  transitivity (qa * A * (sgn (c_lr_post RN c * fst (snd x)) * (Rabs (c_lr_post RN c) * Rabs (fst (snd x) * snd (snd x))))
+                + pa * B * (sgn (c_lr_pre RN c * fst (snd x)) * (Rabs (c_lr_pre RN c) * Rabs (fst (snd x) * snd (snd x)))) + 0);
+    [ring|]. rewrite !sgn_mul_abs. ring.
+Qed.
+
+(* every step's pair contribution is scaled by that step's signal and |scale| *)
+Theorem mstdp_scaled hx :
+  weight_change c k (withsig hx)
+  = c_lr_post RN c * pairsum (c_mode RN c) (c_dt RN c) (c_tc_pre RN c) (sigw hx)
+                              (post_train (map fst hx)) (pre_train c k (map fst hx))
+    + c_lr_pre RN c * pairsum (c_mode RN c) (c_dt RN c) (c_tc_post RN c) (sigw hx)
+                              (pre_train c k (map fst hx)) (post_train (map fst hx)).
+Proof.
+  unfold weight_change. rewrite weight_change_sum, run_single, mstdp_steps.
+  unfold pairsum. rewrite !sum_over_spike_times. unfold pre_train, post_train.
+  rewrite shift_length, !map_length. rewrite <- (keff_grid c k G). fold (Ptr c k (map fst hx)). fold (Qtr (map fst hx)).
+  unfold contrib. rewrite <- !sum_steps_scale, <- sum_steps_plus. apply sum_steps_ext. intros; ring.
+Qed.
+End MSTDP.
+
+(* ================================================================== MSTDPET *)
+Lemma elig_ext dt tz c1 c2 n : (forall t, (t <= n)%nat -> c1 t = c2 t) -> elig dt tz c1 n = elig dt tz c2 n.
+Proof.
+  induction n as [|n IH]; intros H; cbn [elig]; [rewrite H by lia; reflexivity|].
+  rewrite IH, H by (intros; try apply H; lia). reflexivity.
+Qed.
+Lemma elig_linear dt tz a b c1 c2 n :
+  elig dt tz (fun t => a * c1 t + b * c2 t) n = a * elig dt tz c1 n + b * elig dt tz c2 n.
+Proof. induction n as [|n IH]; cbn [elig]; [|rewrite IH]; unfold Rdiv; ring. Qed.
+
+Lemma rev_map_snoc {A B} (f : A -> B) l x : rev (map f (l ++ [x])) = map f (x :: rev l).
+Proof. rewrite map_app, rev_app_distr. cbn [map rev app]. rewrite map_rev. reflexivity. Qed.
+
+Section MSTDPET.
+Variable c : config RN.
+Variable k : nat.
+Hypothesis G : grid_ok c k.
+Hypothesis Ht : c_trainer RN c = MSTDPET.
+Local Notation dt := (c_dt RN c).
+Local Notation m := (c_mode RN c).
+Local Notation tz := (c_tc_elig RN c).
+
+Lemma mstdpet_no_reg : del_reg RN c = false /\ del_fwd RN c = false.
+Proof. unfold del_reg, del_fwd, delay_aware. rewrite Ht. split; reflexivity. Qed.
+
+(* the unit-rate contribution streams *)
+Definition cpost (h : list (bool * bool)) (t : nat) : R :=
+  b2r (nth t (Qtr h) false) * partner_sum m dt (c_tc_pre RN c) (Ptr c k h) t.
+Definition cpre (h : list (bool * bool)) (t : nat) : R :=
+  b2r (nth t (Ptr c k h) false) * partner_sum m dt (c_tc_post RN c) (Qtr h) t.
+Lemma cpost_prefix h pq t : (t < length h)%nat -> cpost (h ++ [pq]) t = cpost h t.
+Proof.
+  intros Hl. unfold cpost. rewrite Ptr_snoc, Qtr_snoc. rewrite app_nth1 by (rewrite Qtr_length; exact Hl).
+  rewrite partner_sum_snoc by (rewrite Ptr_length; exact Hl). reflexivity.
+Qed.
+Lemma cpre_prefix h pq t : (t < length h)%nat -> cpre (h ++ [pq]) t = cpre h t.
+Proof.
+  intros Hl. unfold cpre. rewrite Ptr_snoc, Qtr_snoc. rewrite app_nth1 by (rewrite Ptr_length; exact Hl).
+  rewrite partner_sum_snoc by (rewrite Qtr_length; exact Hl). reflexivity.
+Qed.
+
+(* the eligibility reducers hold the filtered contribution streams (times the trace amplitude) *)
+Lemma elig_state h0 pq :
+  let h := h0 ++ [pq] in
+  hd 0 (s_elig_post RN (state_of c k (rev h))) = Rabs (c_lr_post RN c) * elig dt tz (cpost h) (length h0)
+  /\ hd 0 (s_elig_pre RN (state_of c k (rev h))) = Rabs (c_lr_pre RN c) * elig dt tz (cpre h) (length h0).
+Proof.
+  destruct mstdpet_no_reg as [Er Ef].
+  assert (Hstep : forall h0 pq, let h := h0 ++ [pq] in
+    hd 0 (s_elig_post RN (state_of c k (rev h)))
+    = exp (- dt / tz) * hd 0 (s_elig_post RN (state_of c k (rev h0))) + / tz * (Rabs (c_lr_post RN c) * cpost h (length h0))
+    /\ hd 0 (s_elig_pre RN (state_of c k (rev h)))
+    = exp (- dt / tz) * hd 0 (s_elig_pre RN (state_of c k (rev h0))) + / tz * (Rabs (c_lr_pre RN c) * cpre h (length h0))).
+  { clear h0 pq. intros h0 pq h. replace (rev h) with (pq :: rev h0) by (unfold h; rewrite rev_app_distr; reflexivity).
+    cbn [state_of]. unfold observe at 1 2. rewrite Ht. cbn [s_elig_post s_elig_pre]. unfold push_elig. cbn [hd]. rewrite !elig_fold, !ov_hd_error.
+    rewrite (st_tr_pre c k (grid_syn c k G) (rev h0)), (st_tr_post c k (rev h0)), st_raw, Er, (synspike_eq c k (grid_syn c k G)).
+    change (decay_of RN dt (c_tc_pre RN c)) with (d_pre c). change (decay_of RN dt (c_tc_post RN c)) with (d_post c).
+    change m with (mo c). rewrite !push_trace_tvals.
+    assert (Eo : nth (keff c k) (fst pq :: map fst (rev h0)) false :: obsP c k (map fst (rev h0)) = obsP c k (map fst (pq :: rev h0))).
+    { cbn [map]. rewrite obsP_cons, Er. reflexivity. }
+    rewrite Eo. clear Eo.
+    assert (Eo : nth (keff c k) (fst pq :: map fst (rev h0)) false = nth (keff c k) (rev (map fst h)) false).
+    { unfold h. rewrite rev_map_snoc. reflexivity. }
+    rewrite Eo. clear Eo.
+    change (snd pq :: map snd (rev h0)) with (map snd (pq :: rev h0)).
+    change (hd (zero RN) (tvals (mo c) (d_pre c) (amp_pre RN c) (obsP c k (map fst (pq :: rev h0)))))
+      with (V (mo c) (d_pre c) (amp_pre RN c) (obsP c k (map fst (pq :: rev h0)))).
+    change (hd (zero RN) (tvals (mo c) (d_post c) (amp_post RN c) (map snd (pq :: rev h0))))
+      with (V (mo c) (d_post c) (amp_post RN c) (map snd (pq :: rev h0))).
+    assert (E1 : V (mo c) (d_pre c) (amp_pre RN c) (obsP c k (map fst (pq :: rev h0)))
+                 = Rabs (c_lr_post RN c) * partner_sum m dt (c_tc_pre RN c) (Ptr c k h) (length h0)).
+    { unfold obsP. rewrite Er, dlist_skipn, V_app_false.
+      replace (map fst (pq :: rev h0)) with (rev (map fst (h0 ++ [pq]))) by apply rev_map_snoc.
+      unfold mo, d_pre. rewrite (pre_trace_now c k). unfold amp_pre, is_stable. rewrite Ht. reflexivity. }
+    assert (E2 : V (mo c) (d_post c) (amp_post RN c) (map snd (pq :: rev h0))
+                 = Rabs (c_lr_pre RN c) * partner_sum m dt (c_tc_post RN c) (Qtr h) (length h0)).
+    { replace (map snd (pq :: rev h0)) with (rev (map snd (h0 ++ [pq]))) by apply rev_map_snoc.
+      unfold mo, d_post. rewrite (post_trace_now c). unfold amp_post, is_stable. rewrite Ht. reflexivity. }
+    rewrite E1, E2. unfold h. rewrite (pre_spike_now c k).
+    assert (E3 : snd pq = nth (length h0) (Qtr (h0 ++ [pq])) false).
+    { rewrite <- post_spike_now. rewrite rev_map_snoc. reflexivity. }
+    rewrite E3 at 1. rewrite (b2t_RN (nth (length h0) (Ptr c k (h0 ++ [pq])) false)).
+    rewrite (b2t_RN (nth (length h0) (Qtr (h0 ++ [pq])) false)). unfold cpost, cpre, decay_of. rn_simpl. unfold d_z.
+    split; unfold Rdiv; ring. }
+  revert pq. induction h0 as [|pq' h0 IH] using rev_ind; intros pq h.
+  - destruct (Hstep [] pq) as [H1 H2]. unfold h. rewrite H1, H2. cbn [rev state_of s_init s_elig_post s_elig_pre hd length elig].
+    split; unfold Rdiv; ring.
+  - destruct (Hstep (h0 ++ [pq']) pq) as [H1 H2]. destruct (IH pq') as [I1 I2]. unfold h. rewrite H1, H2, I1, I2.
+    rewrite app_length. cbn [length]. rewrite Nat.add_1_r. cbn [elig].
+    rewrite (elig_ext dt tz (cpost ((h0 ++ [pq']) ++ [pq])) (cpost (h0 ++ [pq'])) (length h0))
+      by (intros; apply cpost_prefix; rewrite app_length; cbn; lia).
+    rewrite (elig_ext dt tz (cpre ((h0 ++ [pq']) ++ [pq])) (cpre (h0 ++ [pq'])) (length h0))
+      by (intros; apply cpre_prefix; rewrite app_length; cbn; lia).
+    split; unfold Rdiv; ring.
+Qed.
+End MSTDPET.
+
+Section MSTDPET2.
+Variable c : config RN.
+Variable k : nat.
+Hypothesis G : grid_ok c k.
+Hypothesis Ht : c_trainer RN c = MSTDPET.
+Local Notation dt := (c_dt RN c).
+Local Notation tz := (c_tc_elig RN c).
+
+Lemma mstdpet_steps hx :
+  sum_net (outs_from c k [] (withsig hx))
+  = sum_steps (length hx) (fun t => sigw hx t * elig dt tz (contrib c k (map fst hx)) t).
+Proof.
+  induction hx as [|x hx IH] using rev_ind; [reflexivity|].
+  rewrite withsig_snoc, outs_from_snoc0, sum_net_app, IH. cbn [sum_net snd].
+  rewrite app_length. cbn [length]. rewrite Nat.add_1_r. cbn [sum_steps].
+  rewrite (map_app fst), withsig_fst. cbn [map fst].
+  rewrite (sum_steps_ext _ (fun t => sigw (hx ++ [x]) t * elig dt tz (contrib c k (map fst (hx ++ [x]))) t)
+                           (fun t => sigw hx t * elig dt tz (contrib c k (map fst hx)) t)).
+  2:{ intros t Hlt. f_equal.
+      - unfold sigw. rewrite map_app, app_nth1 by (rewrite map_length; exact Hlt). reflexivity.
+      - apply elig_ext. intros u Hu. rewrite map_app. cbn [map]. apply contrib_prefix. rewrite map_length. lia. }
+  rewrite net_forward_scalar. unfold partials. rewrite Ht.
+  destruct (elig_state c k G Ht (map fst hx) (fst x)) as [E1 E2]. cbv zeta in E1, E2.
+  cbn [fst snd]. rn_simpl. rewrite E1, E2. rewrite map_length.
+  assert (Ew : sigw (hx ++ [x]) (length hx) = fst (snd x) * Rabs (snd (snd x))).
+  { unfold sigw. rewrite map_app. cbn [map]. replace (length hx) with (length (map snd hx)) by apply map_length.
+    rewrite nth_middle. reflexivity. }
+  rewrite Ew. rewrite (map_app fst). cbn [map].
+  rewrite (elig_ext dt tz (contrib c k (map fst hx ++ [fst x]))
+             (fun t => c_lr_post RN c * cpost c k (map fst hx ++ [fst x]) t + c_lr_pre RN c * cpre c k (map fst hx ++ [fst x]) t))
+    by (intros; reflexivity).
+  rewrite elig_linear. f_equal.
+  set (A := elig _ _ _ _). set (B := elig _ _ _ _).
+  transitivity (A * (sgn (c_lr_post RN c * fst (snd x)) * (Rabs (c_lr_post RN c) * Rabs (fst (snd x) * snd (snd x))))
+                + B * (sgn (c_lr_pre RN c * fst (snd x)) * (Rabs (c_lr_pre RN c) * Rabs (fst (snd x) * snd (snd x)))) + 0);
+    [ring|]. rewrite !sgn_mul_abs. ring.
+Qed.
+End MSTDPET2.
+
+(* ================================================================== triplet STDP *)
+Lemma abs_ratio a b : a <> 0 -> Rabs a * Rabs (Rabs b / a) = Rabs b.
+Proof.
+  intros H. rewrite <- Rabs_mult. replace (a * (Rabs b / a)) with (Rabs b) by (field; exact H). apply Rabs_Rabsolu.
+Qed.
+Lemma prev_sum_snoc m dt tau l b t : (t <= length l)%nat -> prev_sum m dt tau (l ++ [b]) t = prev_sum m dt tau l t.
+Proof. intros H. destruct t as [|t]; [reflexivity|]. cbn [prev_sum]. apply partner_sum_snoc. lia. Qed.
+(* the trace one step earlier *)
+Lemma prev_trace m dt tau a l0 b :
+  V m (exp (- dt / tau)) a (rev l0) = a * prev_sum m dt tau (l0 ++ [b]) (length l0).
+Proof.
+  destruct l0 as [|x l] using rev_ind; [cbn; lra|]. clear IHl.
+  rewrite trace_closed, app_length. cbn [length]. rewrite Nat.add_1_r. cbn [prev_sum].
+  rewrite (partner_sum_snoc m dt tau (l ++ [x]) b) by (rewrite app_length; cbn; lia). reflexivity.
+Qed.
+Lemma skipn_1_skipn {A} j (x : A) l : skipn 1 (skipn j (x :: l)) = skipn j l.
+Proof. rewrite <- skipn_plus1, Nat.add_1_r. reflexivity. Qed.
+
+Section Triplet.
+Variable c : config RN.
+Variable k : nat.
+Hypothesis G : grid_ok c k.
+Hypothesis Ht : c_trainer RN c = TripletSTDP \/ c_trainer RN c = StableTripletSTDP.
+Hypothesis Hpost : c_lr_post RN c <> 0.
+Hypothesis Hpre0 : c_lr_pre RN c <> 0.
+Local Notation dt := (c_dt RN c).
+Local Notation m := (c_mode RN c).
+
+Lemma tri : is_triplet RN c = true.
+Proof. unfold is_triplet. destruct Ht as [-> | ->]; reflexivity. Qed.
+
+Lemma pre_trace_prev tau a h0 pq :
+  V m (exp (- dt / tau)) a (skipn 1 (skipn (keff c k) (rev (map fst (h0 ++ [pq])))))
+  = a * prev_sum m dt tau (Ptr c k (h0 ++ [pq])) (length h0).
+Proof.
+  rewrite rev_map_snoc. cbn [map]. rewrite skipn_1_skipn.
+  destruct h0 as [|pq' h0] using rev_ind.
+  - cbn [rev map length prev_sum]. rewrite skipn_nil, V_nil. lra.
+  - clear IHh0. rewrite map_rev. rewrite (pre_trace_now c k). rewrite app_length. cbn [length]. rewrite Nat.add_1_r.
+    cbn [prev_sum]. rewrite (Ptr_snoc c k (h0 ++ [pq'])).
+    rewrite partner_sum_snoc by (rewrite Ptr_length, app_length; cbn; lia). reflexivity.
+Qed.
+Lemma post_trace_prev tau a h0 pq :
+  V m (exp (- dt / tau)) a (skipn 1 (rev (map snd (h0 ++ [pq]))))
+  = a * prev_sum m dt tau (Qtr (h0 ++ [pq])) (length h0).
+Proof.
+  rewrite rev_map_snoc. cbn [map skipn]. rewrite map_rev. fold (Qtr h0).
+  rewrite (prev_trace m dt tau a (Qtr h0) (snd pq)), Qtr_length, <- Qtr_snoc. reflexivity.
+Qed.
+
+(* the documented contribution of step t:
+   [post spike at t] (alpha_post + beta_post y_b(t - dt)) x_a(t) + [pre spike at t] (alpha_pre + beta_pre x_b(t - dt)) y_a(t)
+   with unit-amplitude traces, the betas entering by absolute value with alpha's sign *)
+Definition tcontrib (h : list (bool * bool)) (t : nat) : R :=
+  b2r (nth t (Qtr h) false) *
+    ((c_lr_post RN c + sgn (c_lr_post RN c) * Rabs (c_lr_post3 RN c) * prev_sum m dt (c_tc_post_slow RN c) (Qtr h) t)
+     * partner_sum m dt (c_tc_pre RN c) (Ptr c k h) t)
+  + b2r (nth t (Ptr c k h) false) *
+    ((c_lr_pre RN c + sgn (c_lr_pre RN c) * Rabs (c_lr_pre3 RN c) * prev_sum m dt (c_tc_pre_slow RN c) (Ptr c k h) t)
+     * partner_sum m dt (c_tc_post RN c) (Qtr h) t).
+
+Lemma tcontrib_prefix h pq t : (t < length h)%nat -> tcontrib (h ++ [pq]) t = tcontrib h t.
+Proof.
+  intros Hl. unfold tcontrib. rewrite Ptr_snoc, Qtr_snoc.
+  rewrite !app_nth1 by (rewrite ?Ptr_length, ?Qtr_length; exact Hl).
+  rewrite !partner_sum_snoc by (rewrite ?Ptr_length, ?Qtr_length; exact Hl).
+  rewrite !prev_sum_snoc by (rewrite ?Ptr_length, ?Qtr_length; lia). reflexivity.
+Qed.
+
+Lemma net_triplet h0 pq :
+  let h := h0 ++ [pq] in
+  net (forward RN c k (SigNone RN) [state_of c k (rev h)]) = tcontrib h (length h0).
+Proof.
+  intros h. rewrite net_forward_none.
+  pose proof (grid_syn c k G) as Hsyn. pose proof (grid_pre c k G) as Hp.
+  destruct (grid_pre_slow c k G) as (Hs1 & Hs2 & Hs3).
+  unfold partials.
+  destruct Ht as [E | E]; rewrite E; cbv zeta;
+  rewrite st_tr_pre, st_tr_post, st_spike_pre, st_spike_post by exact Hsyn;
+  rewrite (st_tr_pre_slow c k Hsyn _ tri), (st_tr_post_slow c k _ tri);
+  rewrite (read_trace c k) by (intros E'; apply Hp; exact E');
+  rewrite (read_spike c k) by (intros E'; apply Hp; exact E');
+  rewrite (read_slow c k) by assumption;
+  rewrite (rd_small _ _ _ 1) by assumption; rewrite nth_tvals;
+  rewrite !map_rev;
+  change (hd (zero RN) (tvals (mo c) (d_post c) (amp_post RN c) (rev (map snd h))))
+    with (V (mo c) (d_post c) (amp_post RN c) (rev (map snd h)));
+  unfold mo, d_pre, d_post, d_pre_slow, d_post_slow, h;
+  rewrite pre_trace_now, post_trace_now, pre_spike_now, post_spike_now, pre_trace_prev, post_trace_prev;
+  unfold amp_pre, amp_post, amp_pre_slow, amp_post_slow, lr_post3_abs, lr_pre3_abs, is_stable; rewrite E; cbn [fst snd]; rn_simpl;
+  rewrite (b2t_RN (nth (length h0) (Ptr c k (h0 ++ [pq])) false));
+  rewrite (b2t_RN (nth (length h0) (Qtr (h0 ++ [pq])) false));
+  unfold tcontrib;
+  set (PSa := partner_sum m dt (c_tc_pre RN c) _ _); set (PSb := partner_sum m dt (c_tc_post RN c) _ _);
+  set (Ya := prev_sum m dt (c_tc_post_slow RN c) _ _); set (Xa := prev_sum m dt (c_tc_pre_slow RN c) _ _);
+  set (qa := b2r _); set (pa := b2r _).
+  - (* TripletSTDP: amplitudes |alpha| and |beta/alpha| *)
+    transitivity (qa * PSa * (sgn (c_lr_post RN c) * Rabs (c_lr_post RN c)
+                              + sgn (c_lr_post RN c) * (Rabs (c_lr_post RN c) * Rabs (Rabs (c_lr_post3 RN c) / c_lr_post RN c)) * Ya)
+                  + pa * PSb * (sgn (c_lr_pre RN c) * Rabs (c_lr_pre RN c)
+                              + sgn (c_lr_pre RN c) * (Rabs (c_lr_pre RN c) * Rabs (Rabs (c_lr_pre3 RN c) / c_lr_pre RN c)) * Xa));
+      [ring|]. rewrite !abs_ratio, !sgn_abs by assumption. ring.
+  - (* StableTripletSTDP: unit amplitudes, the rates multiply at the end *)
+    transitivity (qa * PSa * (sgn (c_lr_post RN c) * Rabs (c_lr_post RN c) + sgn (c_lr_post RN c) * Rabs (c_lr_post3 RN c) * Ya)
+                  + pa * PSb * (sgn (c_lr_pre RN c) * Rabs (c_lr_pre RN c) + sgn (c_lr_pre RN c) * Rabs (c_lr_pre3 RN c) * Xa));
+      [ring|]. rewrite !sgn_abs. ring.
+Qed.
+
+Lemma triplet_steps h :
+  sum_net (outs_from c k [] (nosig h)) = sum_steps (length h) (tcontrib h).
+Proof.
+  induction h as [|pq h IH] using rev_ind; [reflexivity|].
+  unfold nosig in *. rewrite map_app. cbn [map]. rewrite outs_from_snoc0, sum_net_app, IH. cbn [sum_net snd].
+  rewrite app_length. cbn [length]. rewrite Nat.add_1_r. cbn [sum_steps].
+  rewrite (sum_steps_ext _ (tcontrib (h ++ [pq])) (tcontrib h)) by (intros; apply tcontrib_prefix; assumption).
+  rewrite (map_app fst), map_map. cbn [map fst]. rewrite map_id.
+  pose proof (net_triplet h pq) as Hn. cbv zeta in Hn. rewrite Hn. lra.
+Qed.
+End Triplet.
+
+(* ================================================================== final statements *)
+Lemma contrib_spec c k h : grid_ok c k -> forall t,
+  contrib c k h t
+  = stdp_contrib (c_mode RN c) (c_dt RN c) (c_lr_post RN c) (c_lr_pre RN c) (c_tc_pre RN c) (c_tc_post RN c)
+                 (pre_train c k h) (post_train h) t.
+Proof. intros G t. unfold contrib, stdp_contrib, Ptr, Qtr, pre_train, post_train. rewrite (keff_grid c k G). reflexivity. Qed.
+
+(* MSTDPET: the signal (times |scale|) of every step is applied to the STDP contribution stream filtered by
+   z(t) = z(t - dt) exp(-dt/tau_z) + contribution(t)/tau_z *)
+Theorem mstdpet_filtered c k hx :
+  c_trainer RN c = MSTDPET -> grid_ok c k ->
+  weight_change c k (withsig hx)
+  = sum_steps (length hx) (fun t =>
+      sigw hx t *
+      elig (c_dt RN c) (c_tc_elig RN c)
+           (stdp_contrib (c_mode RN c) (c_dt RN c) (c_lr_post RN c) (c_lr_pre RN c) (c_tc_pre RN c) (c_tc_post RN c)
+                         (pre_train c k (map fst hx)) (post_train (map fst hx))) t).
+Proof.
+  intros Ht G. unfold weight_change. rewrite weight_change_sum, run_single, (mstdpet_steps c k G Ht).
+  apply sum_steps_ext. intros t _. f_equal. apply elig_ext. intros u _. apply contrib_spec. exact G.
+Qed.
+(* MSTDP, per step: the same statement as mstdp_scaled, organised by step *)
+Theorem mstdp_stepwise c k hx :
+  c_trainer RN c = MSTDP -> grid_ok c k ->
+  weight_change c k (withsig hx)
+  = sum_steps (length hx) (fun t =>
+      sigw hx t *
+      stdp_contrib (c_mode RN c) (c_dt RN c) (c_lr_post RN c) (c_lr_pre RN c) (c_tc_pre RN c) (c_tc_post RN c)
+                   (pre_train c k (map fst hx)) (post_train (map fst hx)) t).
+Proof.
+  intros Ht G. unfold weight_change. rewrite weight_change_sum, run_single, (mstdp_steps c k G Ht).
+  apply sum_steps_ext. intros t _. f_equal. apply contrib_spec. exact G.
+Qed.
+
+(* triplet STDP: every pair term is multiplied by (alpha + sgn(alpha) |beta| * slow trace of the TRIGGERING
+   population one step earlier) *)
+Theorem triplet_factor c k h :
+  c_trainer RN c = TripletSTDP \/ c_trainer RN c = StableTripletSTDP ->
+  c_lr_post RN c <> 0 -> c_lr_pre RN c <> 0 -> grid_ok c k ->
+  weight_change c k (nosig h)
+  = pairsum (c_mode RN c) (c_dt RN c) (c_tc_pre RN c)
+            (fun t => c_lr_post RN c + sgn (c_lr_post RN c) * Rabs (c_lr_post3 RN c)
+                                       * prev_sum (c_mode RN c) (c_dt RN c) (c_tc_post_slow RN c) (post_train h) t)
+            (post_train h) (pre_train c k h)
+    + pairsum (c_mode RN c) (c_dt RN c) (c_tc_post RN c)
+            (fun t => c_lr_pre RN c + sgn (c_lr_pre RN c) * Rabs (c_lr_pre3 RN c)
+                                      * prev_sum (c_mode RN c) (c_dt RN c) (c_tc_pre_slow RN c) (pre_train c k h) t)
+            (pre_train c k h) (post_train h).
+Proof.
+  intros Ht H1 H2 G. unfold weight_change. rewrite weight_change_sum, run_single, (triplet_steps c k G Ht H1 H2).
+  unfold pairsum. rewrite !sum_over_spike_times. unfold pre_train, post_train.
+  rewrite shift_length, !map_length. rewrite <- (keff_grid c k G). fold (Ptr c k h). fold (Qtr h).
+  unfold tcontrib. rewrite <- sum_steps_plus. apply sum_steps_ext. intros; ring.
+Qed.
+(* without triplet rates the triplet trainers are pair-based STDP *)
+Corollary triplet_beta0_is_stdp c k h :
+  c_trainer RN c = TripletSTDP \/ c_trainer RN c = StableTripletSTDP ->
+  c_lr_post RN c <> 0 -> c_lr_pre RN c <> 0 -> c_lr_post3 RN c = 0 -> c_lr_pre3 RN c = 0 -> grid_ok c k ->
+  weight_change c k (nosig h)
+  = c_lr_post RN c * pairsum (c_mode RN c) (c_dt RN c) (c_tc_pre RN c) (fun _ => 1) (post_train h) (pre_train c k h)
+    + c_lr_pre RN c * pairsum (c_mode RN c) (c_dt RN c) (c_tc_post RN c) (fun _ => 1) (pre_train c k h) (post_train h).
+Proof.
+  intros Ht H1 H2 B1 B2 G. rewrite (triplet_factor c k h Ht H1 H2 G), B1, B2, Rabs_R0. unfold pairsum.
+  rewrite <- !sum_over_scale. f_equal; apply sum_over_ext; intros; ring.
+Qed.
+
+(* ================================================================== batches *)
+Fixpoint rsum (l : list R) : R := match l with [] => 0 | x :: t => x + rsum t end.
+Lemma tsum_RN l : tsum RN l = rsum l.
+Proof. induction l as [|x l IH]; [reflexivity|]. cbn [tsum rsum]. rewrite IH. reflexivity. Qed.
+Lemma rsum_map_plus {A} (f g : A -> R) l : rsum (map (fun x => f x + g x) l) = rsum (map f l) + rsum (map g l).
+Proof. induction l as [|x l IH]; cbn [map rsum]; [lra|rewrite IH; lra]. Qed.
+Lemma rsum_map_scale {A} a (f : A -> R) l : rsum (map (fun x => a * f x) l) = a * rsum (map f l).
+Proof. induction l as [|x l IH]; cbn [map rsum]; [lra|rewrite IH; lra]. Qed.
+Lemma rsum_nth {A} (f : A -> R) (d : A) l : rsum (map f l) = sum_steps (length l) (fun b => f (nth b l d)).
+Proof.
+  induction l as [|x l IH] using rev_ind; [reflexivity|].
+  rewrite map_app, app_length. cbn [map length]. rewrite Nat.add_1_r. cbn [sum_steps]. rewrite nth_middle.
+  assert (E : rsum (map f l ++ [f x]) = rsum (map f l) + f x).
+  { clear. induction (map f l) as [|y r IHr]; cbn [app rsum]; [lra|rewrite IHr; lra]. }
+  rewrite E, IH. f_equal. apply sum_steps_ext. intros b Hb. rewrite app_nth1 by exact Hb. reflexivity.
+Qed.
+
+Lemma rsum_lin {A} a b (f g : A -> R) l : rsum (map (fun x => a * f x + b * g x) l) = a * rsum (map f l) + b * rsum (map g l).
+Proof. induction l as [|x l IH]; cbn [map rsum]; [lra|rewrite IH; lra]. Qed.
+Lemma reduce_sum l : reduce RN RSum l = rsum l.
+Proof. apply tsum_RN. Qed.
+Lemma reduce_mean l : reduce RN RMean l = rsum l / INR (length l).
+Proof. cbn [reduce]. rewrite tsum_RN. rn_simpl. rewrite <- INR_IZR_INZ. reflexivity. Qed.
+
+Section Batch.
+Variable c : config RN.
+Variable k : nat.
+Local Notation fp := (fun s => fst (partials RN c k s)).
+Local Notation sp := (fun s => snd (partials RN c k s)).
+
+Lemma forward_none_gen ss :
+  net (forward RN c k (SigNone RN) ss)
+  = sgn (c_lr_post RN c) * reduce RN (c_red RN c) (map fp ss) + sgn (c_lr_pre RN c) * reduce RN (c_red RN c) (map sp ss).
+Proof. unfold forward. rewrite net_route, !map_map. reflexivity. Qed.
+Lemma forward_scalar_gen sv scale ss :
+  net (forward RN c k (SigScalar RN sv scale) ss)
+  = sgn (c_lr_post RN c * sv) * (reduce RN (c_red RN c) (map fp ss) * Rabs (sv * scale))
+    + sgn (c_lr_pre RN c * sv) * (reduce RN (c_red RN c) (map sp ss) * Rabs (sv * scale)).
+Proof. unfold forward. rewrite net_route, !map_map. reflexivity. Qed.
+
+(* one trainer call on a batch, sum reduction: the net update is the sum of the per-sample net updates *)
+Lemma forward_batch_sum sg ss : c_red RN c = RSum -> batch_signal sg ->
+  net (forward RN c k sg ss) = rsum (map (fun s => net (forward RN c k sg [s])) ss).
+Proof.
+  intros Hr Hs. destruct sg as [|sv scale|sv scale]; [| |destruct Hs].
+  - rewrite (map_ext _ _ (net_forward_none c k)), forward_none_gen, Hr, (reduce_sum (map fp ss)), (reduce_sum (map sp ss)).
+    rewrite (rsum_lin _ _ fp sp). reflexivity.
+  - assert (E : forall s, net (forward RN c k (SigScalar RN sv scale) [s])
+                          = (sgn (c_lr_post RN c * sv) * Rabs (sv * scale)) * fp s
+                            + (sgn (c_lr_pre RN c * sv) * Rabs (sv * scale)) * sp s)
+      by (intros s; rewrite net_forward_scalar; ring).
+    rewrite (map_ext _ _ E), forward_scalar_gen, Hr, (reduce_sum (map fp ss)), (reduce_sum (map sp ss)).
+    rewrite (rsum_lin _ _ fp sp).
+    rn_simpl. ring.
+Qed.
+(* mean reduction: the mean of the per-sample net updates *)
+Lemma forward_batch_mean sg ss : c_red RN c = RMean -> batch_signal sg -> ss <> [] ->
+  net (forward RN c k sg ss) = rsum (map (fun s => net (forward RN c k sg [s])) ss) / INR (length ss).
+Proof.
+  intros Hr Hs Hne.
+  assert (Hn : INR (length ss) <> 0) by (destruct ss; [congruence|apply not_0_INR; discriminate]).
+  destruct sg as [|sv scale|sv scale]; [| |destruct Hs].
+  - rewrite (map_ext _ _ (net_forward_none c k)), forward_none_gen, Hr, (reduce_mean (map fp ss)), (reduce_mean (map sp ss)).
+    rewrite (rsum_lin _ _ fp sp), !map_length. rn_simpl. field. exact Hn.
+  - assert (E : forall s, net (forward RN c k (SigScalar RN sv scale) [s])
+                          = (sgn (c_lr_post RN c * sv) * Rabs (sv * scale)) * fp s
+                            + (sgn (c_lr_pre RN c * sv) * Rabs (sv * scale)) * sp s)
+      by (intros s; rewrite net_forward_scalar; ring).
+    rewrite (map_ext _ _ E), forward_scalar_gen, Hr, (reduce_mean (map fp ss)), (reduce_mean (map sp ss)).
+    rewrite (rsum_lin _ _ fp sp), !map_length. rn_simpl. field. exact Hn.
+Qed.
+End Batch.
+
+Lemma sum_steps_zero n : sum_steps n (fun _ => 0) = 0.
+Proof. induction n as [|n IH]; cbn; [reflexivity|rewrite IH; lra]. Qed.
+
+Lemma nth_map_lt {A B} (f : A -> B) l b d d' : (b < length l)%nat -> nth b (map f l) d' = f (nth b l d).
+Proof. intros H. rewrite (nth_indep _ d' (f d)) by (rewrite map_length; exact H). apply map_nth. Qed.
+
+Section BatchRun.
+Variable c : config RN.
+Variable k : nat.
+Variable B : nat.
+Variable phi : R.
+(* how one trainer call combines the samples (instantiated below for the sum and the mean) *)
+Hypothesis Hf : forall sg ss, batch_signal sg -> length ss = B ->
+  net (forward RN c k sg ss) = phi * rsum (map (fun s => net (forward RN c k sg [s])) ss).
+
+Definition col (b : nat) (inps : list (list (bool * bool) * signal RN)) : list (list (bool * bool) * signal RN) :=
+  map (fun i => ([nth b (fst i) (false, false)], snd i)) inps.
+Definition inputs_ok (inps : list (list (bool * bool) * signal RN)) : Prop :=
+  Forall (fun i => batch_signal (snd i) /\ length (fst i) = B) inps.
+
+Lemma nth_observe ss pqs b : length ss = B -> length pqs = B -> (b < B)%nat ->
+  nth b (map (fun sx : sstate RN * (bool * bool) => observe RN c k (fst sx) (fst (snd sx)) (snd (snd sx))) (combine ss pqs)) (s_init RN)
+  = observe RN c k (nth b ss (s_init RN)) (fst (nth b pqs (false, false))) (snd (nth b pqs (false, false))).
+Proof.
+  intros H1 H2 Hb.
+  rewrite (nth_map_lt _ _ _ (s_init RN, (false, false))) by (rewrite combine_length; lia).
+  rewrite combine_nth by lia. reflexivity.
+Qed.
+
+Lemma run_batch : forall inps ss, length ss = B -> inputs_ok inps ->
+  sum_net (run RN c k ss inps)
+  = phi * sum_steps B (fun b => sum_net (run RN c k [nth b ss (s_init RN)] (col b inps))).
+Proof.
+  induction inps as [|i tl IH]; intros ss Hl Hok.
+  - cbn [run col map sum_net]. rewrite sum_steps_zero. lra.
+  - inversion Hok as [|? ? [Hsg Hli] Hok']; subst.
+    cbn [run]. unfold step at 1. cbn [fst snd sum_net].
+    set (ss' := map _ (combine ss (fst i))).
+    assert (Hl' : length ss' = B) by (unfold ss'; rewrite map_length, combine_length; lia).
+    rewrite (IH ss' Hl' Hok'), (Hf (snd i) ss' Hsg Hl'), (rsum_nth _ (s_init RN)), Hl'.
+    rewrite <- Rmult_plus_distr_l, <- sum_steps_plus. f_equal. apply sum_steps_ext. intros b Hb.
+    cbn [col map run]. unfold step. cbn [fst snd combine map sum_net].
+    unfold ss'. rewrite nth_observe by (try lia; exact Hb). reflexivity.
+Qed.
+End BatchRun.
+
+Lemma col_sample b inps : col b inps = inps1 (sample b inps).
+Proof. unfold col, inps1, sample. rewrite map_map. reflexivity. Qed.
+Lemma nth_init_batch b B : nth b (init_batch RN B) (s_init RN) = s_init RN.
+Proof. unfold init_batch. destruct (Nat.lt_ge_cases b B); [apply nth_repeat|rewrite nth_overflow; [reflexivity|rewrite repeat_length; lia]]. Qed.
+
+(* batch samples are combined by the configured reduction: with the sum, the weight change of a batch is the sum of
+   the weight changes of its samples taken alone; with the mean, their mean *)
+Theorem batch_reduction_sum c k B inps :
+  c_red RN c = RSum -> inputs_ok B inps ->
+  weight_change_batch c k B inps = sum_steps B (fun b => weight_change c k (sample b inps)).
+Proof.
+  intros Hr Hok. unfold weight_change_batch, weight_change. rewrite weight_change_sum.
+  assert (Hf : forall sg ss, batch_signal sg -> length ss = B ->
+               net (forward RN c k sg ss) = 1 * rsum (map (fun s => net (forward RN c k sg [s])) ss))
+    by (intros; rewrite Rmult_1_l; apply forward_batch_sum; assumption).
+  rewrite (run_batch c k B 1 Hf inps (init_batch RN B) (repeat_length _ _) Hok).
+  rewrite Rmult_1_l. apply sum_steps_ext. intros b Hb. rewrite weight_change_sum, nth_init_batch, col_sample. reflexivity.
+Qed.
+Theorem batch_reduction_mean c k B inps :
+  c_red RN c = RMean -> (0 < B)%nat -> inputs_ok B inps ->
+  weight_change_batch c k B inps = sum_steps B (fun b => weight_change c k (sample b inps)) / INR B.
+Proof.
+  intros Hr HB Hok. unfold weight_change_batch, weight_change. rewrite weight_change_sum.
+  assert (Hf : forall sg ss, batch_signal sg -> length ss = B ->
+               net (forward RN c k sg ss) = / INR B * rsum (map (fun s => net (forward RN c k sg [s])) ss)).
+  { intros sg ss Hs Hl. assert (Hne : ss <> []) by (destruct ss; [cbn in Hl; lia|discriminate]).
+    rewrite (forward_batch_mean c k sg ss Hr Hs Hne), Hl. unfold Rdiv. ring. }
+  rewrite (run_batch c k B (/ INR B) Hf inps (init_batch RN B) (repeat_length _ _) Hok).
+  unfold Rdiv. rewrite Rmult_comm. f_equal. apply sum_steps_ext. intros b Hb.
+  rewrite weight_change_sum, nth_init_batch, col_sample. reflexivity.
+Qed.
+
+(* the Stable variants (unit-amplitude traces, rates applied when the update is formed) compute, in exact arithmetic,
+   the same weight change as the variants that put the rates in the trace amplitudes *)
+Theorem stable_equals_unstable c k h : grid_ok c k ->
+  weight_change (set_trainer c StableSTDP) k (nosig h) = weight_change (set_trainer c STDP) k (nosig h).
+Proof.
+  intros G. rewrite !stdp_pairsum by (try exact G; cbn; auto). reflexivity.
+Qed.
+Theorem stable_triplet_equals_unstable c k h : grid_ok c k -> c_lr_post RN c <> 0 -> c_lr_pre RN c <> 0 ->
+  weight_change (set_trainer c StableTripletSTDP) k (nosig h) = weight_change (set_trainer c TripletSTDP) k (nosig h).
+Proof.
+  intros G H1 H2. rewrite !triplet_factor by (try exact G; try assumption; cbn; auto). reflexivity.
+Qed.
+
+(* ================================================================== the generated kernels, stated directly *)
+Lemma fold_kernel_tvals m d a obs :
+  fold_kernel (fun o st => trace_fold RN m d a o st) obs = hd_error (tvals m d a obs).
+Proof. induction obs as [|o r IH]; [reflexivity|]. cbn [fold_kernel tvals hd_error]. rewrite IH. reflexivity. Qed.
+
+(* Gen.Trace.trace_cumulative folded over ANY spike train (oldest first: l ++ [b]) with decay exp(-dt/tau):
+   amplitude * sum over the spikes s of the train of exp(-(age of s) / tau), age = (current step - s) dt *)
+Theorem trace_cumulative_geometric dt tau a l b :
+  fold_kernel (fun o st => Gen.Trace.trace_cumulative RN (b2t RN o) st (Rtrigo_def.exp (- dt / tau)) a (one RN) None) (rev (l ++ [b]))
+  = Some (a * sum_over (spike_times (l ++ [b])) (fun s => Rtrigo_def.exp (- ((INR (length l) - INR s) * dt) / tau))).
+Proof.
+  change (fun o st => trace_cumulative RN (b2t RN o) st (exp (- dt / tau)) a (one RN) None)
+    with (fun o st => trace_fold RN Cumulative (exp (- dt / tau)) a o st).
+  rewrite fold_kernel_tvals.
+  pose proof (trace_closed Cumulative dt tau a l b) as H. unfold V in H.
+  rewrite rev_app_distr in *. cbn [rev app tvals hd_error hd] in *. rewrite H. cbn [partner_sum].
+  rewrite partners_le_all by (rewrite app_length; cbn; lia). reflexivity.
+Qed.
+(* Gen.Trace.trace_nearest: amplitude * exp(-(age of the most recent spike)/tau), 0 when there was none *)
+Theorem trace_nearest_latest dt tau a l b :
+  fold_kernel (fun o st => Gen.Trace.trace_nearest RN (b2t RN o) st (Rtrigo_def.exp (- dt / tau)) a (one RN) None) (rev (l ++ [b]))
+  = Some (a * match latest_upto (l ++ [b]) (S (length l)) with
+              | Some s => Rtrigo_def.exp (- ((INR (length l) - INR s) * dt) / tau)
+              | None => 0
+              end).
+Proof.
+  change (fun o st => trace_nearest RN (b2t RN o) st (exp (- dt / tau)) a (one RN) None)
+    with (fun o st => trace_fold RN Nearest (exp (- dt / tau)) a o st).
+  rewrite fold_kernel_tvals.
+  pose proof (trace_closed Nearest dt tau a l b) as H. unfold V in H.
+  rewrite rev_app_distr in *. cbn [rev app tvals hd_error hd] in *. rewrite H. reflexivity.
+Qed.
+(* the eligibility filter in closed form: z(t) = sum over u <= t of c(u)/tau_z exp(-(t - u) dt / tau_z) *)
+Theorem elig_geometric dt tz cf n :
+  elig dt tz cf n = sum_steps (S n) (fun u => cf u / tz * Rtrigo_def.exp (- ((INR n - INR u) * dt) / tz)).
+Proof.
+  induction n as [|n IH].
+  - cbn [elig sum_steps]. replace (- ((INR 0 - INR 0) * dt) / tz) with 0 by (unfold Rdiv; ring). rewrite exp_0. lra.
+  - cbn [elig]. rewrite IH. cbn [sum_steps].
+    replace (- ((INR (S n) - INR (S n)) * dt) / tz) with 0 by (unfold Rdiv; ring). rewrite exp_0.
+    assert (E : forall m' g, sum_steps m' g * exp (- dt / tz) = sum_steps m' (fun u => g u * exp (- dt / tz))).
+    { induction m' as [|m' IHm]; intros g; cbn [sum_steps]; [lra|]. rewrite <- IHm. lra. }
+    rewrite Rmult_plus_distr_r, E.
+    rewrite (sum_steps_ext n _ (fun u => cf u / tz * exp (- ((INR (S n) - INR u) * dt) / tz))).
+    2:{ intros u _. rewrite Rmult_assoc, <- exp_plus. f_equal. f_equal. rewrite S_INR. unfold Rdiv. ring. }
+    rewrite Rmult_assoc, <- exp_plus.
+    replace (- ((INR n - INR n) * dt) / tz + - dt / tz) with (- ((INR (S n) - INR n) * dt) / tz)
+      by (rewrite S_INR; unfold Rdiv; ring).
+    lra.
+Qed.
